@@ -457,7 +457,8 @@ class Node(object):
             for server in self.servers:
                 self.all_servers_total.append(server.total_time)
                 self.all_servers_busy.append(server.busy_time)
-            self.server_utilisation = sum(self.all_servers_busy) / sum(self.all_servers_total)
+            total_time = sum(self.all_servers_total)
+            self.server_utilisation = sum(self.all_servers_busy) / total_time if total_time > 0 else None
 
     def finish_service(self):
         """
